@@ -143,3 +143,143 @@ func GenTLS(rng *rand.Rand, thorough bool, emit func(*Sx)) {
 		}
 	}
 }
+
+// GenC12: the complete configuration space of the property: 5 extension flags
+// x size limit {0,N} x recipient limit {0,N} x TLS {none, available, active} x
+// AllowInsecureAuth x backend {auth-capable, not} x {SMTP, LMTP} = 3072
+// configurations; for each: the EHLO/LHLO reply, the HELO reply, and a probe of
+// every extension's command or parameter.
+func GenC12(rng *rand.Rand, thorough bool, emit func(*Sx)) {
+	idx := 0
+	for bits := 0; bits < 1<<5; bits++ {
+		for _, maxBytes := range []int64{0, 1000} {
+			for _, maxRcpt := range []int{0, 2} {
+				for tlsState := 0; tlsState < 3; tlsState++ {
+					for _, insecure := range []bool{false, true} {
+						for _, auth := range []bool{false, true} {
+							for _, lmtp := range []bool{false, true} {
+								idx++
+								if !thorough && idx%4 != 0 && !(bits == 0 || bits == 31) {
+									continue
+								}
+								cfg := DefaultCfg()
+								cfg.UTF8 = bits&1 != 0
+								cfg.RequireTLS = bits&2 != 0
+								cfg.BinaryMIME = bits&4 != 0
+								cfg.DSN = bits&8 != 0
+								cfg.RRVS = bits&16 != 0
+								cfg.MaxBytes, cfg.MaxRcpt = maxBytes, maxRcpt
+								cfg.TLSConfig = tlsState >= 1
+								cfg.ImplicitTLS = tlsState == 2
+								cfg.Insecure = insecure
+								cfg.LMTP = lmtp
+								if auth {
+									cfg.HasAuth, cfg.Auth = true, []string{"PLAIN", "LOGIN"}
+								}
+								tls := cfg.ImplicitTLS
+								f := newF(cfg)
+								f.hello()
+								caps := []string{"PIPELINING", "8BITMIME", "ENHANCEDSTATUSCODES", "CHUNKING"}
+								if cfg.TLSConfig && !tls {
+									caps = append(caps, "STARTTLS")
+								}
+								if (tls || insecure) && auth {
+									caps = append(caps, "AUTH PLAIN LOGIN")
+								}
+								if cfg.UTF8 {
+									caps = append(caps, "SMTPUTF8")
+								}
+								if tls && cfg.RequireTLS {
+									caps = append(caps, "REQUIRETLS")
+								}
+								if cfg.BinaryMIME {
+									caps = append(caps, "BINARYMIME")
+								}
+								if cfg.DSN {
+									caps = append(caps, "DSN")
+								}
+								if maxBytes > 0 {
+									caps = append(caps, "SIZE 1000")
+								} else {
+									caps = append(caps, "SIZE")
+								}
+								if maxRcpt > 0 {
+									caps = append(caps, "LIMITS RCPTMAX=2")
+								}
+								if cfg.RRVS {
+									caps = append(caps, "RRVS")
+								}
+								cl := L()
+								for _, c := range caps {
+									cl.Add(XS(c))
+								}
+								f.add(L(A("expect-ehlo"), cl))
+								on := func(b bool, yes, no int) int {
+									if b {
+										return yes
+									}
+									return no
+								}
+								probe := func(line string, code int) {
+									f.cmd(line, code)
+									if code == 250 {
+										f.cmd("RSET", 250)
+									}
+								}
+								probe("MAIL FROM:<p@x> SMTPUTF8", on(cfg.UTF8, 250, 504))
+								probe("MAIL FROM:<p@x> REQUIRETLS", on(cfg.RequireTLS, 250, 504))
+								probe("MAIL FROM:<p@x> BODY=BINARYMIME", on(cfg.BinaryMIME, 250, 504))
+								probe("MAIL FROM:<p@x> BODY=8BITMIME", 250)
+								probe("MAIL FROM:<p@x> RET=HDRS", on(cfg.DSN, 250, 504))
+								probe("MAIL FROM:<p@x> ENVID=e1", on(cfg.DSN, 250, 504))
+								probe("MAIL FROM:<p@x> SIZE=1000", 250)
+								probe("MAIL FROM:<p@x> SIZE=1001", on(maxBytes > 0, 552, 250))
+								f.cmd("MAIL FROM:<p@x>", 250)
+								acc := 0
+								rprobe := func(line string, enabled bool) {
+									switch {
+									case maxRcpt > 0 && acc >= maxRcpt:
+										f.cmd(line, 452) // the limit is checked before the parameters
+									case enabled:
+										f.cmd(line, 250)
+										acc++
+									default:
+										f.cmd(line, 504)
+									}
+								}
+								rprobe("RCPT TO:<r1@x> NOTIFY=SUCCESS", cfg.DSN)
+								rprobe("RCPT TO:<r2@x> ORCPT=rfc822;o@x", cfg.DSN)
+								rprobe("RCPT TO:<r3@x> RRVS=2014-04-03T23:01:00Z", cfg.RRVS)
+								for i := 0; i < 3; i++ {
+									rprobe("RCPT TO:<more@x>", true)
+								}
+								f.cmd("RSET", 250)
+								switch {
+								case !(tls || insecure):
+									f.cmd("AUTH PLAIN AGEAYg==", 523)
+								case !auth:
+									f.cmd("AUTH PLAIN AGEAYg==", 504)
+								default:
+									f.cmd("AUTH PLAIN AGEAYg==", 235)
+								}
+								// HELO lists nothing
+								if !lmtp {
+									f.cmd("HELO again.example", 250)
+									f.add(L(A("expect-helo-plain")))
+								}
+								if tls || !cfg.TLSConfig {
+									f.cmd("STARTTLS", 502)
+									f.cmd("QUIT", 221)
+								} else {
+									// available: the command is accepted (220); no handshake follows, so 550
+									f.cmd("STARTTLS", 220, 550)
+								}
+								emit(RunConv(f.caseOf("C12", segStream(rng, f.out, nil, idx%2, rawEOF))))
+							}
+						}
+					}
+				}
+			}
+		}
+	}
+}
